@@ -9,7 +9,7 @@ local macro "len_omega" : tactic =>
   `(tactic| ((try simp only [List.length_append, List.length_cons, List.length_nil]) <;> (try omega)))
 local macro "lst" : tactic => `(tactic| ((try simp only [List.append_assoc, List.cons_append, List.nil_append]) <;> (try rfl)))
 
-theorem tr_for (fuel : Nat) (env : Src.Env) (he : PlainEnv env) (init inc : Src.Stmt) (t : Ev) (B : Src.Stmts) (k : Nat) (b : Src.B) :
+theorem tr_for (fuel : Nat) (env : Src.Env) (he : EnvOK cx env) (init inc : Src.Stmt) (t : Ev) (B : Src.Stmts) (k : Nat) (b : Src.B) :
     Src.tr fuel [] env (.for_ init t inc B) k b =
       Src.tr fuel [] env init (tbl b).length
         ((Src.trStmts fuel [] (loopEnv env (Src.tr fuel [] env inc (tbl b).length (b.push (.halt (evInvalid "loop test"))).1).2 k) B
@@ -25,11 +25,11 @@ theorem afterCtxL_label {rs : List (List LItem)} {r i : Nat} {l : Nat} {nm : Boo
     afterCtxL rs ⟨r, i + 1⟩ = false := by
   rw [afterCtxL_succ, h]; rfl
 
-theorem for_core (cx : Cx) (fuel : Nat) (env : Src.Env) (he : PlainEnv env) (lb : Nat) (hd : Hdr) (init inc : Stmt) (body : Stmts)
+theorem for_core (cx : Cx) (fuel : Nat) (env : Src.Env) (he : EnvOK cx env) (lb : Nat) (hd : Hdr) (init inc : Stmt) (body : Stmts)
     (ht : isTest hd.name = true) {s sa sb s' : St} {ii ee ops : List LItem} (o1 o2 sL eB : Nat)
     (hI : SimpleOK cx ii (fun k b => Src.tr fuel [] env (toSrcStmt init) k b))
     (hE : SimpleOK cx ee (fun k b => Src.tr fuel [] env (toSrcStmt inc) k b))
-    (hP : ∀ env', PlainEnv env' → PieceOK cx ops sa sb (fun k b => Src.trStmts fuel [] env' (toSrcStmts body) k b) env')
+    (hP : ∀ env', EnvOK cx env' → PieceOK cx ops sa sb (fun k b => Src.trStmts fuel [] env' (toSrcStmts body) k b) env')
     (hsaL : sa.loops = (lb + 4, lb + 2) :: s.loops) (hsaC : sa.cases = s.cases) (hl : s'.loops = s.loops) (hc : s'.cases = s.cases) :
     PieceOK cx ([LItem.label (lb + 1) false] ++ ii ++ [LItem.ljump ⟨o1, Gen.op_jump, []⟩ (some (lb + 5)), LItem.label (lb + 3) false] ++
         ([LItem.label sL false] ++ ops ++ [LItem.label eB false]) ++ [LItem.label (lb + 4) false] ++ ee ++
@@ -37,7 +37,7 @@ theorem for_core (cx : Cx) (fuel : Nat) (env : Src.Env) (he : PlainEnv env) (lb 
       (fun k b => Src.tr fuel [] env (.for_ (toSrcStmt init) (hdrEv hd) (toSrcStmt inc) (toSrcStmts body)) k b) env := by
   have hP0 := hP env he
   have htr := fun k b => tr_for fuel env he (toSrcStmt init) (toSrcStmt inc) (hdrEv hd) (toSrcStmts body) k b
-  have hg4 : ∀ k b, Grow b
+  have hg4 : ∀ k b, Grow cx.Z b
       ((Src.trStmts fuel [] (loopEnv env (Src.tr fuel [] env (toSrcStmt inc) (tbl b).length (b.push (.halt (evInvalid "loop test"))).1).2 k)
           (toSrcStmts body) (Src.tr fuel [] env (toSrcStmt inc) (tbl b).length (b.push (.halt (evInvalid "loop test"))).1).2
           (Src.tr fuel [] env (toSrcStmt inc) (tbl b).length (b.push (.halt (evInvalid "loop test"))).1).1).1.set (tbl b).length
@@ -46,7 +46,7 @@ theorem for_core (cx : Cx) (fuel : Nat) (env : Src.Env) (he : PlainEnv env) (lb 
           (Src.tr fuel [] env (toSrcStmt inc) (tbl b).length (b.push (.halt (evInvalid "loop test"))).1).1).2 k)) := by
     intro k b
     exact (((Grow.push b _).trans (hE.grow _ _)).trans ((hP _ (plainEnv_loopEnv he _ _)).grow _ _)).set_ge (Nat.le_refl _) _
-  have hgrow : ∀ k b, Grow b (Src.tr fuel [] env (.for_ (toSrcStmt init) (hdrEv hd) (toSrcStmt inc) (toSrcStmts body)) k b).1 := by
+  have hgrow : ∀ k b, Grow cx.Z b (Src.tr fuel [] env (.for_ (toSrcStmt init) (hdrEv hd) (toSrcStmt inc) (toSrcStmts body)) k b).1 := by
     intro k b
     rw [htr]
     exact (hg4 k b).trans (hI.grow _ _)
@@ -76,21 +76,21 @@ theorem for_core (cx : Cx) (fuel : Nat) (env : Src.Env) (he : PlainEnv env) (lb 
   rw [htr] at hag ⊢
   -- names for the parts of the source translation
   generalize hRI : Src.tr fuel [] env (toSrcStmt inc) (tbl b).length (b.push (.halt (evInvalid "loop test"))).1 = RI at hag ⊢
-  have hgI : Grow (b.push (.halt (evInvalid "loop test"))).1 RI.1 := by rw [← hRI]; exact hE.grow _ _
+  have hgI : Grow cx.Z (b.push (.halt (evInvalid "loop test"))).1 RI.1 := by rw [← hRI]; exact hE.grow _ _
   have hPe := hP (loopEnv env RI.2 k) (plainEnv_loopEnv he _ _)
   generalize hRB : Src.trStmts fuel [] (loopEnv env RI.2 k) (toSrcStmts body) RI.2 RI.1 = RB at hag ⊢
-  have hgB : Grow RI.1 RB.1 := by rw [← hRB]; exact hPe.grow _ _
-  have hg4' : Grow b (RB.1.set (tbl b).length (.test (hdrEv hd) RB.2 k)) :=
+  have hgB : Grow cx.Z RI.1 RB.1 := by rw [← hRB]; exact hPe.grow _ _
+  have hg4' : Grow cx.Z b (RB.1.set (tbl b).length (.test (hdrEv hd) RB.2 k)) :=
     (((Grow.push b _).trans hgI).trans hgB).set_ge (Nat.le_refl _) _
   have hgInit := hI.grow (tbl b).length (RB.1.set (tbl b).length (.test (hdrEv hd) RB.2 k))
-  have agI : AgreeOn cx.N (RB.1.set (tbl b).length (.test (hdrEv hd) RB.2 k))
+  have agI : AgreeOn cx.N cx.Z (RB.1.set (tbl b).length (.test (hdrEv hd) RB.2 k))
       (Src.tr fuel [] env (toSrcStmt init) (tbl b).length (RB.1.set (tbl b).length (.test (hdrEv hd) RB.2 k))).1 :=
     hag.sub_grow hg4' (Grow.refl _)
-  have ag4 : AgreeOn cx.N b (RB.1.set (tbl b).length (.test (hdrEv hd) RB.2 k)) :=
-    hag.sub (Nat.le_refl _) hgInit.len (fun i _ h2 => hgInit.get h2)
+  have ag4 : AgreeOn cx.N cx.Z b (RB.1.set (tbl b).length (.test (hdrEv hd) RB.2 k)) :=
+    hag.sub_grow (Grow.refl b) hgInit
   obtain ⟨hNt, ag13⟩ := agree_set ag4 (hgI.trans hgB)
-  have agE : AgreeOn cx.N (b.push (.halt (evInvalid "loop test"))).1 RI.1 := ag13.sub_grow (Grow.refl _) hgB
-  have agB : AgreeOn cx.N RI.1 RB.1 := ag13.sub_grow hgI (Grow.refl _)
+  have agE : AgreeOn cx.N cx.Z (b.push (.halt (evInvalid "loop test"))).1 RI.1 := ag13.sub_grow (Grow.refl _) hgB
+  have agB : AgreeOn cx.N cx.Z RI.1 RB.1 := ag13.sub_grow hgI (Grow.refl _)
   -- positions
   have hit0 : itemAt cx.rs ⟨r, i0⟩ = some (.label (lb + 1) false) := hp.here' [] _ _ (by lst) (by len_omega)
   have hpI : Placed cx.rs r (i0 + 1) ii := hp.mid' [LItem.label (lb + 1) false] ii _ (by lst) (by len_omega)
@@ -187,13 +187,13 @@ theorem for_core (cx : Cx) (fuel : Nat) (env : Src.Env) (he : PlainEnv env) (lb 
   rw [htgt5]; exact hQ
 
 /-- `ForBlockCompileHandler.collect()` -/
-theorem for_pm (cx : Cx) (fuel : Nat) (env : Src.Env) (he : PlainEnv env) (lb : Nat) (hd : Hdr) (init inc : Stmt) (body : Stmts)
+theorem for_pm (cx : Cx) (fuel : Nat) (env : Src.Env) (he : EnvOK cx env) (lb : Nat) (hd : Hdr) (init inc : Stmt) (body : Stmts)
     (initM incM bodyM : M (List LItem)) (ht : isTest hd.name = true)
     (hI : ∀ s items s', initM s = .ok (items, s') →
       SimpleOK cx items (fun k b => Src.tr fuel [] env (toSrcStmt init) k b) ∧ s'.loops = s.loops ∧ s'.cases = s.cases)
     (hE : ∀ s items s', incM s = .ok (items, s') →
       SimpleOK cx items (fun k b => Src.tr fuel [] env (toSrcStmt inc) k b) ∧ s'.loops = s.loops ∧ s'.cases = s.cases)
-    (hBody : ∀ env', PlainEnv env' → PM cx bodyM (fun k b => Src.trStmts fuel [] env' (toSrcStmts body) k b) env') :
+    (hBody : ∀ env', EnvOK cx env' → PM cx bodyM (fun k b => Src.trStmts fuel [] env' (toSrcStmts body) k b) env') :
     PM cx (forOf lb hd initM incM bodyM)
       (fun k b => Src.tr fuel [] env (.for_ (toSrcStmt init) (hdrEv hd) (toSrcStmt inc) (toSrcStmts body)) k b) env := by
   intro s items s' h
